@@ -13,12 +13,14 @@
 #include <signal.h>
 #include <unistd.h>
 #include <sys/mman.h>
+#include <sys/time.h>
 
 static char vh_case_tag[256] = "startup";
 static inline void vh_set_tag(const char *t) { strncpy(vh_case_tag, t, sizeof(vh_case_tag) - 1); }
 
 static void vh_fault_handler(int sig) {
 	char msg[400];
+	if (sig == SIGPROF) sig = SIGALRM; /* vh_watchdog(): CPU-time budget and wall-clock backstop are one verdict, "FAULT sig=14" = non-termination */
 	int n = snprintf(msg, sizeof(msg), "\nFAULT sig=%d case=%s\n", sig, vh_case_tag);
 	if (n > 0) (void)!write(1, msg, (size_t)n);
 	_exit(99);
@@ -28,7 +30,19 @@ static inline void vh_install_fault_handler(void) {
 	signal(SIGBUS, vh_fault_handler);
 	signal(SIGFPE, vh_fault_handler);
 	signal(SIGALRM, vh_fault_handler); /* alarm() watchdog = non-termination */
+	signal(SIGPROF, vh_fault_handler); /* vh_watchdog() CPU-time budget = non-termination */
 	setvbuf(stdout, NULL, _IOLBF, 0);
+}
+/* Non-termination watchdog for one call (or one case) of the code under test: cpu_s seconds of CPU time of this process
+ * (user + system; does not expire early on a loaded machine, so it can be sized close to the real cost of a case) and
+ * wall_s seconds of wall clock as a backstop for a call that blocks instead of spinning.  vh_watchdog(0, 0) disarms.
+ * Expiry of either ends the process with "FAULT sig=14 case=<tag>" (needs vh_install_fault_handler()). */
+static inline void vh_watchdog(unsigned cpu_s, unsigned wall_s) {
+	struct itimerval it;
+	memset(&it, 0, sizeof(it));
+	it.it_value.tv_sec = (time_t)cpu_s;
+	setitimer(ITIMER_PROF, &it, NULL);
+	alarm(wall_s);
 }
 
 static inline uint8_t *vh_buf(size_t n) {
